@@ -621,8 +621,8 @@ class Engine:
         """Sweep-mode state merging.  Exact part: ip, call context, rsp, DF/MXCSR, callee-saved registers.  General part:
         caller-saved registers and stack cells, where an unknown ('?') seen earlier covers any later value (a state whose
         values are unknown explores a superset of the continuations of a state where they are known)."""
-        key = (st.ip, st.ctx, self._abs(st.r[4]), st.df, st.mxcsr_written, tuple(self._abs(st.r[i]) for i in self.CALLEE))
-        gen = {('r', i): self._abs(st.r[i]) for i in range(16) if i not in self.CALLEE and i != 4}
+        key = (st.ip, st.ctx, self._abs(st.r[4]), st.df, st.mxcsr_written)
+        gen = {('r', i): self._abs(st.r[i]) for i in range(16) if i != 4}
         for rg in st.regions:
             if isinstance(rg, CellRegion):
                 for o, (v, n) in rg.cells.items():
@@ -638,10 +638,10 @@ class Engine:
                 if v == '?S':
                     continue                      # secret unknown covers everything
                 if v == '?':
-                    if nv == '?S':
-                        ok = False
+                    if nv == '?S' or (isinstance(nv, str) and nv != '?'):
+                        ok = False            # an unknown does not cover a secret, nor an entry-value token (restored register)
                         break
-                    continue                      # public unknown covers public values
+                    continue                      # public unknown covers public concrete/unknown values
                 if nv != v:
                     ok = False
                     break
@@ -651,6 +651,28 @@ class Engine:
                     ok = False
             if ok:
                 return True
+        if len(seen) >= 12:
+            # widening: many states reach this point differing only in concrete scratch values (e.g. a lane mask built bit by bit).
+            # Replace every caller-saved register / stack cell whose value differs from an earlier state by an unknown: a sound
+            # over-approximation (its branches are then followed both ways), after which later states are subsumed.
+            changed = False
+            for k, v in list(gen.items()):
+                if v == '?' or v == '?S' or isinstance(v, str):
+                    continue
+                if any(o.get(k, '?') != v for o in seen):
+                    if k[0] == 'r':
+                        st.r[k[1]] = fresh_like(64, [st.r[k[1]]], 'wid')
+                    else:
+                        for rg in st.regions:
+                            if isinstance(rg, CellRegion) and k[1] in rg.cells:
+                                rg.cells[k[1]] = (fresh_like(8 * k[2], [rg.cells[k[1]][0]], 'widm'), k[2])
+                    gen[k] = '?S' if (self.track_taint and v == '?S') else '?'
+                    changed = True
+            if changed:
+                for old in seen:
+                    if all((v == '?S') or (v == '?' and not isinstance(gen.get(k, '?'), str or ()) ) or (v == '?' and gen.get(k, '?') == '?') or gen.get(k, '?') == v for k, v in old.items()) and \
+                            not any(v == '?S' and k not in old for k, v in gen.items()):
+                        return True
         seen.append(gen)
         if len(seen) > 64:
             del seen[0]
